@@ -379,6 +379,23 @@ def main(argv):
                         c.broken.append("correspondence shard model vs bin/shard: run %d (n=%d %s %s): model=%s impl=%s" % (ri, r["n"], r["spec"], r["kind"], mo[:120], impl[:120]))
                         break
                 c.cov["traces_validated_against_impl"] += len(mlines)
+    # the same runs with the key hash COMPUTED by the Coq models of RangeFields (C10) and
+    # MurmurHash64A (C14) instead of imported from the implementation (inputs up to 20 kB:
+    # the extracted Murmur costs ~20 us per byte)
+    if drv and pending:
+        sel = [x for x in pending if len(x[2]) <= 20000]
+        tl = ["T %d %s %s %s" % (r["n"], r["spec"].encode().hex(), r["delim"].hex(), data.hex() if data else "-") for ri, r, data, recs, outs in sel]
+        rc, tout, terr = codeclog.run_lines_bigstack(drv, tl, timeout=1800)
+        if len(tout) != len(tl):
+            c.broken.append("C06 model driver (concrete key) produced %d lines for %d runs: %s" % (len(tout), len(tl), terr[-200:]))
+        else:
+            for (ri, r, data, recs, outs), mo in zip(sel, tout):
+                impl = "OK " + ",".join(o.hex() if o else "-" for o in outs)
+                if mo != impl:
+                    c.broken.append("correspondence shard model with Fields+Murmur key vs bin/shard: run %d (n=%d -f %s %s): model=%s impl=%s" % (ri, r["n"], r["spec"], r["kind"], mo[:120], impl[:120]))
+                    break
+            c.cov["traces_validated_against_impl"] += len(tl)
+            c.cov["distribution"]["model-with-computed-key-hash"] = len(tl)
     # block sizes handed to the writer: model vs kBlockSize arithmetic
     if drv:
         rc, kout, _ = run_lines(drv, ["K"])
